@@ -3,7 +3,8 @@ From V.gen Require Consts.
 From V.C14 Require Model Proofs.
 From V.C15 Require Model Engine.
 From V.C17 Require Model Proofs Timed Ingress.
-From V.C16 Require Import Model Proofs Obl Bound Chan Exec Time Compose Comp EngineRef.
+From V.gen Require C16Tables.
+From V.C16 Require Import Model Proofs Obl Bound Chan Exec Time Compose Comp EngineRef HandleModel Handle.
 Import ListNotations.
 Open Scope N_scope.
 From V.C16 Require Import Properties.
@@ -345,6 +346,58 @@ Check (C16_engine_serve_refines :
   forall gc s xe q, erel (eng s) xe -> NoDup (map fst (eng s)) ->
   exists e', erel e' (fst (V.C15.Engine.xstep gc xe (V.C15.Engine.XNext (now s) (q + 1)))) /\
              serve s q = on_action (w_eng s e') (snd (V.C15.Engine.xstep gc xe (V.C15.Engine.XNext (now s) (q + 1))))).
+Check (C16_handle_ids_fresh :
+  forall cap ops, ufresh [] (snd (fst (hrun (h0 cap) ops)))).
+Check (C16_handle_one_terminal :
+  forall wc m cap ops q,
+  let us := snd (fst (hrun (h0 cap) ops)) in
+  let W0 := w0 wc m (length (lkey wc)) in
+  (terminals q (snd (crun wc W0 us)) + (if live q (w_st (fst (crun wc W0 us))) then 1 else 0) =
+   cstarted wc W0 q us)%nat /\
+  (cstarted wc W0 q us <= ustarted q us)%nat /\ (cstarted wc W0 q us <= 1)%nat).
+Check (C16_handle_try_full :
+  forall cap ops0 b ops1,
+  let h := fst (fst (hrun (h0 cap) ops0)) in
+  h_closed h || full h = true -> draws b = true ->
+  snd (hcall h true b) = RErr /\
+  h_chan (fst (hcall h true b)) = h_chan h /\ h_park (fst (hcall h true b)) = h_park h /\
+  let us := snd (fst (hrun (h0 cap) (ops0 ++ OCall true b :: ops1))) in
+  ustarted (h_next h) us = 0%nat /\
+  forall wc m, terminals (h_next h) (snd (crun wc (w0 wc m (length (lkey wc))) us)) = 0%nat).
+Check (C16_handle_fifo :
+  (forall h b, h_closed h || full h = false ->
+     snd (hcall h true b) = ROk (if draws b then Some (h_next h) else None) /\
+     h_chan (fst (hcall h true b)) = h_chan h ++ [with_id b (h_next h)]) /\
+  (forall h tr b h' r, hcall h tr b = (h', r) ->
+     h_chan h' = h_chan h \/ h_chan h' = h_chan h ++ [with_id b (h_next h)]) /\
+  (forall h c t, h_chan h = c :: t ->
+     snd (hrecv h) = Some c /\ h_chan (fst (hrecv h)) = t /\ h_park (fst (hrecv h)) = h_park h)).
+Check (C16_command_starts_in_sync :
+  forall wc w,
+  Forall (fun c => option_map fst (loop_row (cmd_name c)) = Some (start_name (fst (fst (elab wc w (h2u c))))))
+         cmd_samples).
+Check (C16_events_classified :
+  map (fun r => (fst r, has_field F_QUERY_ID r)) V.gen.C16Tables.events =
+    map (fun x => (fst (fst x), snd (fst x))) tbl_events /\
+  map (fun x => fst (fst x)) (filter (fun x => snd (fst x) && negb (snd x)) tbl_events) = EV_PARTIAL /\
+  map (fun x => fst (fst x)) (filter (fun x => negb (snd (fst x))) tbl_events) =
+    EV_NOID /\
+  forall x, In x tbl_events -> snd x = true -> snd (fst x) = true).
+Check (C16_tables_in_sync :
+  V.gen.C16Tables.quorum = tbl_quorum /\
+  map fst V.gen.C16Tables.commands = tbl_commands /\
+  V.gen.C16Tables.methods = tbl_methods /\
+  map (fun r => (fst (fst r), snd (fst r))) V.gen.C16Tables.actions = tbl_action_events /\
+  V.gen.C16Tables.need = tbl_need /\
+  V.gen.C16Tables.results = tbl_results /\
+  V.gen.C16Tables.transports = tbl_transports /\
+  V.gen.C16Tables.refresh = tbl_refresh /\
+  map (fun r : String.string * list String.string * list String.string * list String.string => (fst (fst (fst r)), snd (fst r)))
+      V.gen.C16Tables.loop_cmds = tbl_cmd_store /\
+  map (fun r : String.string * list String.string * list String.string * list String.string => (fst (fst (fst r)), snd r))
+      (filter (fun r : String.string * list String.string * list String.string * list String.string =>
+                 match snd r with [] => false | _ => true end) V.gen.C16Tables.loop_cmds) =
+    GETRECORD_ROW).
 Check (C16_default_config :
   1 <= V.gen.Consts.PARALLELISM_FACTOR /\ 0 < V.gen.Consts.KAD_READ_TIMEOUT_SECS /\
   0 < V.gen.Consts.KAD_WRITE_TIMEOUT_SECS).
